@@ -145,6 +145,11 @@ def _call(name, box, params, lb):
 
 
 def judge_call(col, name, box, params, lb, hull_limit=callcheck.HULL_LIMIT):
+    if lb is None:
+        # no logical step budget outside interpretation: leave a marker so that the parent can name a stalled call
+        from framework import progress
+
+        progress.mark({"call": {"name": name, "box": box, "params": list(params)}})
     st, out, second, exc = _call(name, box, params, lb)
     if exc is not None and st is None:
         col.exceptions += 1
